@@ -142,9 +142,22 @@ def symresOp : Handler := fun args =>
     | .ok r => Json.mkObj [("ok", Json.arr (r.map str).toArray)]
     | .err => Json.mkObj [("err", Json.bool true)]
 
+/-- `utils.ResolveSymbolicLink` on strings (`Sym.resolveStr`): relative paths included -/
+def symstrOp : Handler := fun args =>
+  let tab : List (List Str × Option (List Str)) := match args.getObjVal? "links" with
+    | .ok (.arr a) => a.toList.filterMap fun e => match e with
+      | .arr #[k, v] => match compsOf k with
+        | some kk => some (kk, compsOf v)
+        | none => none
+      | _ => none
+    | _ => []
+  match CV.Paths.Sym.resolveStr (CV.Paths.Sym.ofTable tab) (getStr args "path").toList with
+  | some r => Json.mkObj [("ok", str r)]
+  | none => Json.mkObj [("err", Json.bool true)]
+
 def handlers : List (String × Handler) :=
   [("c12.join", joinOp), ("c12.winabs", winabsOp), ("c12.remote", remoteOp),
    ("c12.resolve", resolveOp), ("c12.spec", specOp), ("c12.specs", specsOp),
-   ("c12.rel", relOp), ("c12.ldir", ldirOp), ("c12.symres", symresOp)]
+   ("c12.rel", relOp), ("c12.ldir", ldirOp), ("c12.symres", symresOp), ("c12.symstr", symstrOp)]
 
 end CV.Ops.C12
